@@ -244,6 +244,20 @@ def fs_shape_corpus(rng, tier):
                                       "dl": LNK("dl2"), "dl2": LNK("dl")})
     add("dir-link-loop:call-only", {"target.py": "import os\ndef f(a):\n    return dl.s.g(a)\n", "dl": LNK("dl2"), "dl2": LNK("dl")})
     add("dir-dangling-link", {"target.py": "import dd.s\ndef f(a):\n    return dd.s.g(a)\n", "dd": LNK("nowhere")})
+    # --- `from X import *` cycles whose modules are reached through links (round 5, seeded C07-m13): the star-expansion
+    # BFS keys its seen-set by the RESOLVED origin; a cycle must end whatever spelling of the path reaches the module
+    cyc_models = "from .util import *\n\n\ndef fa(x):\n    return x.a\n"
+    cyc_util = "from .models import *\n\n\ndef fb(x):\n    return fa(x.b)\n"
+    cyc_target = "from pkg import *\n\n\ndef main(x):\n    return fa(x), fb(x)\n"
+    add("star-cycle:plain", {"pkg/__init__.py": "from .models import *\n", "pkg/models.py": cyc_models, "pkg/util.py": cyc_util, "target.py": cyc_target})
+    add("star-cycle:dir-link", {"shared/pkg/__init__.py": "from .models import *\n", "shared/pkg/models.py": cyc_models, "shared/pkg/util.py": cyc_util,
+                                "proj/pkg": LNK("../shared/pkg"), "proj/target.py": cyc_target}, cwd="proj")
+    add("star-cycle:dir-link:ir", {"shared/pkg/__init__.py": "from .models import *\n", "shared/pkg/models.py": cyc_models, "shared/pkg/util.py": cyc_util,
+                                   "proj/pkg": LNK("../shared/pkg"), "proj/target.py": cyc_target}, cwd="proj", opts=["-o", "ir"])
+    add("star-cycle:file-links", {"a.py": "from blink import *\n\n\ndef fa(x):\n    return x.a\n", "b.py": "from alink import *\n\n\ndef fb(x):\n    return fa(x.b)\n",
+                                  "alink.py": LNK("a.py"), "blink.py": LNK("b.py"), "target.py": "from alink import *\n\n\ndef main(x):\n    return fa(x), fb(x)\n"})
+    add("star-cycle:self-through-link", {"a.py": "from alink import *\n\n\ndef fa(x):\n    return x.a\n", "alink.py": LNK("a.py"),
+                                         "target.py": "from a import *\n\n\ndef main(x):\n    return fa(x)\n"})
     # --- two names for one file without any link
     add("two-names:pkg-and-init", {"pkg/__init__.py": F_OK, "target.py": "import pkg\nimport pkg.__init__\ndef g(a):\n    return pkg.f(a)\ndef h(a):\n    return pkg.__init__.f(a)\n"})
     add("two-names:init-first", {"pkg/__init__.py": F_OK, "target.py": "import pkg.__init__\nimport pkg\ndef h(a):\n    return pkg.__init__.f(a)\ndef g(a):\n    return pkg.f(a)\n"})
